@@ -2,7 +2,10 @@ SPECIFICATION Spec
 CONSTANTS
   Faithful = TRUE
   CrossResps <- MidResps
-INVARIANTS TypeOK RelayedUnchanged XffDeviationShape ReturnedUnchanged UpstreamHeaderWins OneCall FailureIsReported DevsOnlyWhenFaithful
+  Sides = {"req", "rsp"}
+  FaultReqs <- FaultReqsQ
+  FaultResps <- FaultRespsQ
+INVARIANTS TypeOK RelayedUnchanged XffDeviationShape ReturnedUnchanged UpstreamHeaderWins OneCall FailureIsReported FaithfulPresentations OwnAnswerOnly DevsOnlyWhenFaithful
 ACTION_CONSTRAINT Dump
 VIEW View
 CHECK_DEADLOCK FALSE
